@@ -99,6 +99,9 @@ Definition alsQ S Y0 nswp lamb skip :=
 Definition optfQ lamb Q y L R H := [showG (fopt_core OQc (gauss_solve OQc) lamb Q y L R H)].
 Definition alsfQ H y A0 nswp lamb :=
   tagQ 0 0 ++ tagQ (Z.of_nat nswp) 1 ++ showY (fY (Nat.iter nswp (fsweep OQc (gauss_solve OQc) lamb y H) (finit_st OQc H y A0))).
+Definition alsfcQ X y A0 a b nswp lamb :=
+  let H := cheb_H OQc a b (cn (nth 0%nat A0 dcore)) (length A0) X in
+  tagQ 0 0 ++ tagQ (Z.of_nat nswp) 1 ++ showY (fY (Nat.iter nswp (fsweep OQc (gauss_solve OQc) lamb y H) (finit_st OQc H y A0))).
 Open Scope Z_scope.
 '''
 
@@ -119,6 +122,9 @@ Definition cbat (t0 : option nat) : option (nat -> list (core float) -> bool) :=
 Definition alsF accs accvs t0 S Y0 nswp e evld lamb skip :=
   showR (als OF (gauss_solve OF) (fun t _ _ => lk accs t) (fun t _ => lk accvs t) (cbat t0) S Y0 nswp e evld lamb skip 60).
 Definition alsfF H y A0 nswp lamb :=
+  tagF 0 0 ++ tagF (Z.of_nat nswp) 1 ++ showY (fY (Nat.iter nswp (fsweep OF (gauss_solve OF) lamb y H) (finit_st OF H y A0))).
+Definition alsfcF X y A0 a b nswp lamb :=
+  let H := cheb_H OF a b (cn (nth 0%nat A0 dcore)) (length A0) X in
   tagF 0 0 ++ tagF (Z.of_nat nswp) 1 ++ showY (fY (Nat.iter nswp (fsweep OF (gauss_solve OF) lamb y H) (finit_st OF H y A0))).
 Definition adaF orths skels S Y0 nswp r radd lamb :=
   match als_adaptive OF (gauss_solve OF) (fun _ => nth 0 orths []) (fun c _ _ => nth c skels (mk_core 0 0 0 [], mk_core 0 0 0 []))
@@ -604,6 +610,145 @@ def stream_als_func(R, ctx, tn):
     return bad
 
 
+# ---------------------------------------------------------------------------------------------- als_func, default entry path
+BOXES = [(0.0, 1.0), (0.5, 3.0), (-3.0, -1.0), (2.0, 7.0), (-1.0, 1.0), (-2.0, 5.0), (0.25, 0.75)]
+TPOS = [-0.25, 0.0, 0.0, 0.125, 0.25, 0.375, 0.5, 0.625, 0.75, 0.875, 1.0, 1.0, 1.5]   # outside, boundary, interior
+
+
+def gen_cheb_case(rng, d=None, box=None, n=None, rmax=2):
+    d = d or rng.choice([2, 2, 3])
+    n = n or rng.choice([2, 3, 4])
+    a, b = box or rng.choice(BOXES)
+    m = rng.randint(4, 9)
+    X = [[a + (b - a) * rng.choice(TPOS) for _ in range(d)] for _ in range(m)]
+    y = [rng.randint(-3, 3) for _ in range(m)]
+    A0 = gen_tensor(rng, [n] * d, rmax)
+    return dict(d=d, n=n, a=a, b=b, X=X, y=y, A0=[G.tolist() for G in A0], lamb=rng.choice(LAMBS), nswp=rng.choice([1, 2, 3]))
+
+
+def run_als_func_cheb(tn, c, nswp=None, order=None, A0=None):
+    """the DEFAULT path of als_func: X, a, b given, fh=None"""
+    m = len(c['y'])
+    order = list(range(m)) if order is None else order
+    info = {}
+    try:
+        with warnings.catch_warnings():
+            warnings.simplefilter('ignore')
+            Y = tn.als_func(np.array(c['X'], dtype=float)[order], np.array(c['y'], dtype=float)[order],
+                            [np.array(G, dtype=float) for G in (c['A0'] if A0 is None else A0)], c['a'], c['b'],
+                            nswp=c['nswp'] if nswp is None else nswp, e=None, info=info, lamb=float(c['lamb']))
+        return dict(status=0, nswp=int(info['nswp']), stop=STOP.get(info['stop'], -1), cores=[np.array(G) for G in Y])
+    except Exception as ex:  # noqa
+        return dict(status=C.errclass(ex), error=repr(ex)[:200])
+
+
+def jcheb(c):
+    return dict(c, lamb=str(c['lamb']))
+
+
+def stream_als_func_cheb(R, ctx, tn):
+    """als_func through its default entry path (poi_scale 'cheb' + func_basis) on boxes that are not symmetric about 0
+    and not of length 2, with points on the boundary and outside (clipping)."""
+    rng = ctx['rng']
+    itemsf, itemsq = [], []
+    dist = dict(cases_f=0, cases_q=0, boxes={})
+    N = 60 if ctx['thorough'] else 16
+    for t in range(N):
+        c = gen_cheb_case(rng, box=BOXES[t % len(BOXES)])
+        impl = run_als_func_cheb(tn, c)
+        coq = (f'alsfcF {C.nested(c["X"], C.flit)} {lst(C.flit(v) for v in c["y"])} {lst(core_f(G) for G in c["A0"])} '
+               f'{C.flit(c["a"])} {C.flit(c["b"])} {c["nswp"]}%nat {C.flit(float(c["lamb"]))}')
+        itemsf.append(dict(coq=coq, impl=impl, input=jcheb(c)))
+        dist['cases_f'] += 1
+        dist['boxes'][str((c['a'], c['b']))] = dist['boxes'].get(str((c['a'], c['b'])), 0) + 1
+    for t in range(12 if ctx['thorough'] else 4):
+        c = gen_cheb_case(rng, d=2, box=BOXES[t % 4], n=2, rmax=1)
+        c['nswp'] = 1
+        c['A0'] = [G.tolist() for G in gen_tensor(rng, [2, 2], 1, -1, 1)]
+        impl = run_als_func_cheb(tn, c)
+        Xq = '[' + '; '.join('[' + '; '.join(C.qlit(Fraction(v)) for v in row) + ']' for row in c['X']) + ']'
+        coq = (f'alsfcQ {Xq} {lst(C.qlit(Fraction(v)) for v in c["y"])} {lst(core_q(G) for G in c["A0"])} '
+               f'{C.qlit(Fraction(c["a"]))} {C.qlit(Fraction(c["b"]))} 1%nat {C.qlit(c["lamb"])}')
+        itemsq.append(dict(coq=coq, impl=impl, input=jcheb(c)))
+        dist['cases_q'] += 1
+    bad = tolerant_corr(R, 'als_func_cheb_binary64', HF, itemsf, cores_of_f, 4, dist,
+                        'model = scale_cheb (C18 model) + func_basis1 (C12 model) + als_func at PrimFloat; cores within 1e-9 '
+                        'relative; nswp / stop exact; boxes asymmetric / length != 2, points on the boundary and outside')
+    bad += tolerant_corr(R, 'als_func_cheb_Qc', HQ, itemsq, cores_of_q, 1, dist,
+                         'the same entry path exact over Qc (d=2, n=2, rank 1, one sweep); implementation within 1e-9 relative')
+    return bad
+
+
+def cheb_ref_H(c, order=None):
+    """independent reference: numpy.polynomial.chebyshev on the scaled, clipped points"""
+    from numpy.polynomial import chebyshev as NC
+    X = np.array(c['X'], dtype=float)
+    if order is not None:
+        X = X[order]
+    a, b = float(c['a']), float(c['b'])
+    Z = np.clip((2.0 * X - (a + b)) / (b - a), -1.0, 1.0)
+    return [NC.chebvander(Z[:, k], c['n'] - 1) for k in range(X.shape[1])]
+
+
+def oracle_func_cheb(tn, c, rng_seed=0):
+    """property clauses of als_func on its default entry path, objective measured in the TRUE Chebyshev basis"""
+    prng = np.random.default_rng(rng_seed)
+    H = cheb_ref_H(c)
+    A0 = [np.array(G, dtype=float) for G in c['A0']]
+    runs = [run_als_func_cheb(tn, c, nswp=t) for t in (1, 2, 3)]
+    for r_ in runs:
+        if r_['status'] != 0:
+            return dict(what='als_func (default Chebyshev path) raised on a valid input: ' + r_.get('error', ''))
+    if [G.shape for G in runs[-1]['cores']] != [G.shape for G in A0]:
+        return dict(what='als_func (default Chebyshev path) changed the shape / ranks of the initial approximation',
+                    got=[list(G.shape) for G in runs[-1]['cores']], expected=[list(G.shape) for G in A0])
+    Js = [J_fun(A0, H, c['y'], c['lamb'])] + [J_fun(r_['cores'], H, c['y'], c['lamb']) for r_ in runs]
+    for t in range(1, 4):
+        if Js[t] > Js[t - 1] * (1 + TOL) + 1e-12:
+            return dict(what='als_func (default Chebyshev path): the objective in the Chebyshev basis of the scaled points '
+                             'increased from sweep to sweep', got=Js, sweep=t)
+    Y = [G.copy() for G in runs[-1]['cores']]
+    J0 = Js[-1]
+    for trial in range(16):
+        h = prng.normal(size=Y[1].shape) * 10.0 ** (-prng.integers(0, 5))
+        Z = [G.copy() for G in Y]
+        Z[1] = Z[1] + h
+        J1 = J_fun(Z, H, c['y'], c['lamb'])
+        if J1 < J0 * (1 - TOL) - 1e-12:
+            return dict(what='als_func (default Chebyshev path): the last updated core is not a minimiser of the objective '
+                             'in the Chebyshev basis of the scaled points', got=[J0, J1], h=h.tolist())
+    # first-order condition for the last updated core
+    g = np.zeros_like(Y[1])
+    eps = 1e-6
+    for pos in itertools.product(*[range(s_) for s_ in Y[1].shape]):
+        Z = [G.copy() for G in Y]
+        Z[1][pos] += eps
+        Jp = J_fun(Z, H, c['y'], c['lamb'])
+        Z[1][pos] -= 2 * eps
+        Jm = J_fun(Z, H, c['y'], c['lamb'])
+        g[pos] = (Jp - Jm) / (2 * eps)
+    if np.abs(g).max() > 1e-5 * max(1.0, J0):
+        return dict(what='als_func (default Chebyshev path): gradient of the objective w.r.t. the last updated core is not zero',
+                    got=float(np.abs(g).max()))
+    m = len(c['y'])
+    order = list(reversed(range(m)))
+    rp = run_als_func_cheb(tn, c, nswp=3, order=order)
+    ok, why = cores_close(rp.get('cores', []), runs[-1]['cores'], TOL)
+    if not ok:
+        return dict(what='als_func (default Chebyshev path): result depends on the order of the training samples', got=why)
+    ra = run_als_func_cheb(tn, c, nswp=2, A0=[G.tolist() for G in runs[0]['cores']])
+    ok, why = cores_close(ra.get('cores', []), runs[-1]['cores'], 1e-12)
+    if not ok:
+        return dict(what='als_func (default Chebyshev path): 1+2 sweeps differ from 1 sweep, restart, 2 sweeps', got=why)
+    # the default path equals the explicit-basis path fed with the reference basis
+    cc = dict(A0=c['A0'], H=[h.tolist() for h in H], y=c['y'], lamb=c['lamb'], nswp=3)
+    rb = run_als_func(tn, cc)
+    ok, why = cores_close(rb.get('cores', []), runs[-1]['cores'], 1e-9)
+    if not ok:
+        return dict(what='als_func: default Chebyshev path differs from fh = reference Chebyshev basis of the scaled points', got=why)
+    return None
+
+
 # ---------------------------------------------------------------------------------------------- adaptive mode
 def stream_adaptive(R, ctx, tn):
     """rank-adaptive als: model with replayed orthogonalize / matrix_skeleton oracles (binary64)."""
@@ -666,6 +811,7 @@ def correspondence(R, ctx):
     bad += stream_als_q(R, ctx, tn)
     bad += stream_als_f(R, ctx, tn)
     bad += stream_als_func(R, ctx, tn)
+    bad += stream_als_func_cheb(R, ctx, tn)
     bad += stream_adaptive(R, ctx, tn)
     return bad
 
@@ -960,6 +1106,26 @@ def search(R, ctx, deep, hints):
         push('func_shape', {}, oracle_func_shape(tn))
     except Exception as ex:  # noqa
         push('func_shape', {}, dict(what='als_func raised: ' + repr(ex)[:200]))
+    # als_func through its default entry path: boxes asymmetric about 0 / of length != 2, boundary and outside points
+    crng = C.Rng(77)
+    for t in range(21 if deep else 7):
+        if len(fails) >= 5:
+            break
+        c = gen_cheb_case(crng, box=BOXES[t % len(BOXES)])
+        n_eval += 1
+        try:
+            push('func_cheb', jcheb(c), oracle_func_cheb(tn, c))
+        except Exception as ex:  # noqa
+            push('func_cheb', jcheb(c), dict(what='oracle raised: ' + repr(ex)[:200]))
+    for h in hints[:6]:
+        inp = h.get('input', {})
+        if isinstance(inp, dict) and 'X' in inp and 'a' in inp and len(fails) < 5:
+            c = dict(inp, lamb=Fraction(inp['lamb']))
+            n_eval += 1
+            try:
+                push('func_cheb', jcheb(c), oracle_func_cheb(tn, c))
+            except Exception as ex:  # noqa
+                push('func_cheb', jcheb(c), dict(what='oracle raised: ' + repr(ex)[:200]))
     # hints from the correspondence
     cases = []
     for h in hints[:6]:
@@ -1034,6 +1200,9 @@ def replay(data):
     elif kind == 'func':
         c = dict(inp, lamb=Fraction(inp['lamb']))
         f = oracle_func(tn, c)
+    elif kind == 'func_cheb':
+        c = dict(inp, lamb=Fraction(inp['lamb']))
+        f = oracle_func_cheb(tn, c)
     else:
         print('no failing input recorded:', p.get('broken'))
         return 1
